@@ -3,6 +3,7 @@
 From Coq Require Import List NArith.
 From Coq.Strings Require Import Byte.
 From OAP Require Import Base.Bytes Base.Res Gen.Consts Model.Metadata Model.Header Model.Waiters Model.Dispatch Proofs.DispatchP.
+From OAP Require Import Model.ChanForms Gen.Chans Proofs.ChanFormsP.
 Import ListNotations.
 Local Open Scope N_scope.
 
@@ -55,6 +56,12 @@ Example C13_late_example :
   length (d_calls s) = 6%nat /\ d_gone s = 1%nat /\ d_queue s = [].
 Proof. vm_compute. repeat split. Qed.
 
+(* DRecv is one total step (enqueue or logged drop, the reader never waits for the dispatcher) because the only sends
+   on a packetCh in the source are the two addPacket functions, both select-with-default (Gen/Chans.v) *)
+Theorem C13_reader_never_blocks_in_source :
+  all_nonblocking packetCh_sends = true /\ funcs_of packetCh_sends = [f_tcp_add; f_ws_add].
+Proof. exact reader_never_blocks. Qed.
+
 Print Assumptions C13_push_delivery.
 Print Assumptions C13_close_drains_the_queue.
 Print Assumptions C13_invariant_in_every_reachable_state.
@@ -66,3 +73,4 @@ Print Assumptions C13_only_logged_overflow_is_lost.
 Print Assumptions C13_drop_only_when_full.
 Print Assumptions C13_control_never_to_subscribers.
 Print Assumptions C13_push_to_own_handlers_only.
+Print Assumptions C13_reader_never_blocks_in_source.
